@@ -198,6 +198,15 @@ ReadvRes(S, si, shs, rv) ==
   ReadvOf(S, si, IF shs = {} THEN ExistingM(S, si) ELSE shs \cap ExistingM(S, si), rv)
 
 (* ------------------- leases through the server API ---------------------- *)
+\* one cycle of the lease checker with expiration enabled (mode "age", the leases' own duration): a completed
+\* share none of whose leases is still valid is deleted; uploads in progress are not the crawler's business
+AllExpired(L, now) == \A l \in L : l.exp < now
+ExpireShares(S) ==
+  [S EXCEPT !.imm = [si \in DOMAIN S.imm |-> [sh \in DOMAIN S.imm[si] |->
+                       LET b == S.imm[si][sh] IN IF b.st = "final" /\ AllExpired(b.leases, S.clock) THEN AbsentB ELSE b]],
+            !.mut = [si \in DOMAIN S.mut |-> [sh \in DOMAIN S.mut[si] |->
+                       LET m == S.mut[si][sh] IN IF m.present /\ AllExpired(m.leases, S.clock) THEN AbsentM ELSE m]]]
+
 IsMutableSI(S, si) == si \in DOMAIN S.mut
 SharesWithLeases(S, si) == IF IsMutableSI(S, si) THEN ExistingM(S, si) ELSE FinalShares(S, si)
 LeasesOf(S, si, sh) == IF IsMutableSI(S, si) THEN S.mut[si][sh].leases ELSE S.imm[si][sh].leases
